@@ -11,7 +11,10 @@ from nix_manipulator.expressions import AttributeSet, FunctionCall, FunctionDefi
 from nix_manipulator.expressions.assertion import Assertion
 from nix_manipulator.expressions.let import LetExpression
 from nix_manipulator.expressions.parenthesis import Parenthesis
-R = random.Random(int(sys.argv[1])); NCASES = int(sys.argv[2]); outdir, prefix = sys.argv[3], sys.argv[4]
+MODE = 'mapping' if 'mapping' in sys.argv[3:] else 'cli'
+args_ = [a for a in sys.argv[1:] if a != 'mapping']
+R = random.Random(int(args_[0])); NCASES = int(args_[1]); outdir, prefix = args_[2], args_[3]
+if MODE == 'mapping': import nix_manipulator.expressions.source_code as SCM
 ORDER = [(Assertion, 'CAssertion'), (LetExpression, 'CLet'), (FunctionDefinition, 'CFunDef'), (WithStatement, 'CWith'), (Identifier, 'CIdent'),
          (Parenthesis, 'CParen'), (AttributeSet, 'CSet'), (FunctionCall, 'CCall')]
 def cls(o):
@@ -72,7 +75,8 @@ def run_case(text):
     except Exception: KIND['(document not parsed: skipped)'] += 1; return None
     if getattr(src, 'contains_error', False): return None
     rec = Rec()
-    orig = {n: getattr(M, n) for n in ('scopes_for_owner', 'set_resolution_context', 'attach_resolution_context')}
+    MOD = SCM if MODE == 'mapping' else M
+    orig = {n: getattr(MOD, n) for n in ('scopes_for_owner', 'set_resolution_context', 'attach_resolution_context')}
     prop = Identifier.__dict__.get('value') or next(c.__dict__['value'] for c in Identifier.__mro__ if 'value' in c.__dict__)
     owner_cls = next(c for c in Identifier.__mro__ if 'value' in c.__dict__)
     def w_scopes(owner):
@@ -94,16 +98,16 @@ def run_case(text):
             except Exception: rec.values.append((rec.nid(self_), v, 'RErrO')); raise
             rec.values.append((rec.nid(self_), v, '(RVal %d)' % rec.nid(r))); return r
         finally: rec.depth -= 1
-    M.scopes_for_owner, M.set_resolution_context, M.attach_resolution_context = w_scopes, w_set, w_attach
+    MOD.scopes_for_owner, MOD.set_resolution_context, MOD.attach_resolution_context = w_scopes, w_set, w_attach
     setattr(owner_cls, 'value', property(getter, prop.fset))
     try:
         exprs = [rec.nid(e) for e in src.expressions]
-        try: out = '(RVal %d)' % rec.nid(M._resolve_target_set(src)); KIND['set'] += 1
+        try: out = '(RVal %d)' % rec.nid(src._resolve_target_set() if MODE == 'mapping' else M._resolve_target_set(src)); KIND['set'] += 1
         except ValueError: out = 'RErrV'; KIND['ValueError'] += 1
         except RecursionError: return None
         except Exception as e: out = 'RErrO'; KIND[type(e).__name__] += 1
     finally:
-        for n, f in orig.items(): setattr(M, n, f)
+        for n, f in orig.items(): setattr(MOD, n, f)
         setattr(owner_cls, 'value', prop)
     # close the node table under the attributes the traversal may read
     i = 0; rows = []
@@ -145,13 +149,13 @@ while len(cases) < NCASES and tries < NCASES * 30:
         raise
     if c is None: continue
     seen.add(t); cases.append(c)
-HDR = 'From Coq Require Import List Arith Bool. Import ListNotations.\nFrom Dyn Require Import TargetGen TargetProps.\n'
+HDR = 'From Coq Require Import List Arith Bool. Import ListNotations.\nFrom Dyn Require Import TargetGen TargetProps%s.\n' % (' MapTargetGen MapTargetProps' if MODE == 'mapping' else '')
 OK = ('Definition res_eqb (a b : res nat) : bool := match a, b with RVal x, RVal y => Nat.eqb x y | RErrV, RErrV | RErrO, RErrO => true | _, _ => false end.\n'
-      'Definition ok (c : table * list nat * res nat * nat) : bool := match c with (tb, es, r, v) => let o := table_run tb es in res_eqb (fst o) r && Nat.eqb (snd o) v && tb_helpers_ok tb end.\n')
+      'Definition ok (c : table * list nat * res nat * nat) : bool := match c with (tb, es, r, v) => let o := %s tb es in res_eqb (fst o) r && Nat.eqb (snd o) v && tb_helpers_ok tb end.\n' % ('map_table_run' if MODE == 'mapping' else 'table_run'))
 write_shards(outdir, prefix, HDR, 'table * list nat * res nat * nat', OK, cases, 8)
 json.dump({'stats': {'outcomes': dict(KIND), 'node_classes': dict(CLSES), 'table_sizes': {str(k): v for k, v in sorted(SIZES.items())}, 'context_mutations': {str(k): v for k, v in sorted(MUT.items())}},
            'keys': sorted(KIND), 'distinct_count': len(seen),
-           'rule': 'documents: random stacks (depth 0-5) of assert / let / lambda / with / parentheses / calls (plain, parenthesised, curried, unsupported callees) / let-bound names (chains, cycles, unbound) over sets and non-sets; '
+           'rule': ('[mapping API: NixSourceCode._resolve_target_set] ' if MODE == 'mapping' else '') + 'documents: random stacks (depth 0-5) of assert / let / lambda / with / parentheses / calls (plain, parenthesised, curried, unsupported callees) / let-bound names (chains, cycles, unbound) over sets and non-sets; '
                    'the regenerated _resolve_target_set evaluated in the recorded table world must give the implementation\'s outcome and number of context mutations; the recorded _strip_parentheses / _supports_attrset_argument of every node must be what the regenerated helpers compute',
            'samples': [cases[1][:400]]}, open(os.path.join(outdir, prefix + '_summary.json'), 'w'))
 print(len(cases))
